@@ -114,6 +114,10 @@ def gen(t, tier):
     sc['procs'] = [p for p in procs if p['clients']]
     if mode == 'kill' and len(sc['procs']) < 2:
         sc['mode'] = 'plain'
+    if sc['mode'] == 'plain' and sc.get('stack') != 'wsgi' and t.chance(0.3):
+        # lock files left behind by a crashed process, older than lock_timeout + 10 s: the first lock() call of the
+        # run cleans the lock directory while the other requests already try to lock
+        sc['stale_locks'] = True
     return sc
 
 
@@ -396,11 +400,30 @@ def _run_tm(sc, tape):
         w.fs.buffer_size = sc['bufsize']
         if mode == 'kill':
             sched.on_yield = on_yield
+        first_tm = None
         for pi, p in enumerate(sc['procs']):
             proc = w.new_proc('p%d' % pi)
             tm = make_tm()
+            first_tm = first_tm or tm
             for ci, reqs in enumerate(p['clients']):
                 sched.spawn(client('p%dc%d' % (pi, ci), tm, reqs), 'p%dc%d' % (pi, ci), proc)
+        if sc.get('stale_locks'):
+            names = set()
+            for p in sc['procs']:
+                for reqs in p['clients']:
+                    for req in reqs:
+                        for c in req:
+                            c = tuple(c)
+                            if first_tm.meta_grid:
+                                c = first_tm.meta_grid.main_tile(c)
+                            names.add(first_tm.locker.lock_filename(Tile(c)))
+            if not w.fs.exists(LOCKDIR):
+                os.makedirs(LOCKDIR)
+            for nm in sorted(names):
+                with open(nm, 'w') as f:
+                    f.write(' 12345\n')
+                w.fs.utime(nm, (w.clock.now - 200, w.clock.now - 200))
+            faults['stale_lock_files'] = len(names)
         outcome = w.run_tasks()
         for t in sched.tasks:
             if t.exc is not None:
@@ -510,6 +533,14 @@ def _oracle(sc, w, mode, name, outcome, responses, shared, killed, sched, grid):
         per.setdefault((e['bbox'], e['size']), []).append(e)
     for k, es in per.items():
         if len(es) > 1:
+            if sc.get('stale_locks') and w.fs.probes.get('unlink_of_file_flocked_by_other_task'):
+                # specific history: cleanup_lockdir() unlinked a stale lock file after another request had re-locked it
+                return {'sig': 'C08:duplicate-fetch:stale-lock-cleanup-race',
+                        'msg': 'with lock files older than lock_timeout+10s left in the lock directory, cleanup_lockdir() (run by '
+                               'the first lock() call) read the old mtime, another request then re-used and locked the file, and '
+                               'cleanup_lockdir() unlinked it: a third request created a new lock file and the upstream was asked '
+                               '%d times for the (meta) tile %s: by %s [%s, %s]' % (
+                                   len(es), k[0], [(e['task'], e['gen']) for e in es], mode, name)}
             return {'sig': 'C08:duplicate-fetch:%s:%s' % (mode, name),
                     'msg': 'upstream was asked %d times for the same (meta) tile %s: by %s' % (
                         len(es), k[0], [(e['task'], e['gen']) for e in es])}
